@@ -507,7 +507,7 @@ Proof.
            end; reflexivity).
   destruct s as [xs|m]; cbn.
   - reflexivity.
-  - destruct (m_get m k) eqn:E; cbn; rewrite ?E; cbn; rewrite ?m_get_insert; cbn; reflexivity.
+  - destruct (m_get m k) eqn:E; cbn; reflexivity.
 Qed.
 
 (* ------------------------------------------------------------------------------------------ *)
